@@ -402,6 +402,30 @@ def rule_state_inventory(repo: Repo) -> List[Ob]:
                 if isinstance(d, (ast.List, ast.Dict, ast.Set, ast.ListComp, ast.DictComp, ast.SetComp, ast.Call)):
                     found[f"default::{m.relpath}::{f.qualname}::{arg.arg}"] = (m.relpath, d.lineno, f.qualname, f"default `{arg.arg}={src(d)}` is evaluated once and shared by all calls")
         # module-level statements that mutate module state of *other* modules are not used by polar
+    # class-level mutable containers that instances mutate without re-binding them in __init__
+    for cls in repo.classes:
+        for attr, val in cls.class_assigns.items():
+            mutable = isinstance(val, (ast.List, ast.Dict, ast.Set, ast.ListComp, ast.DictComp, ast.SetComp)) or \
+                (isinstance(val, ast.Call) and call_name(val) in ("list", "dict", "set", "defaultdict", "deque", "OrderedDict"))
+            if not mutable:
+                continue
+            rebinders = set()
+            mutators = []
+            for mth in cls.all_methods:
+                selfn = mth.params()[0] if mth.params() else "self"
+                for n in walk_no_nested(mth.node):
+                    if isinstance(n, ast.Assign) and any(is_self_attr(t, attr, selfn) for t in n.targets):
+                        rebinders.add(mth.name)
+                    if isinstance(n, ast.Call) and isinstance(n.func, ast.Attribute) and n.func.attr in MUTATING and is_self_attr(n.func.value, attr, selfn):
+                        mutators.append((mth, n))
+                    if isinstance(n, (ast.Assign, ast.AugAssign)):
+                        for t in (n.targets if isinstance(n, ast.Assign) else [n.target]):
+                            if isinstance(t, ast.Subscript) and is_self_attr(t.value, attr, selfn):
+                                mutators.append((mth, n))
+            if mutators and "__init__" not in rebinders:
+                mth, n = mutators[0]
+                found[f"classmutable::{cls.name}.{attr}"] = (cls.relpath, n.lineno, mth.qualname,
+                                                              f"class-level container {cls.name}.{attr} = {src(val)} is mutated through `self` ({src(n)[:40]}) and never re-bound in __init__: all instances share it")
     # registration on a class-level dispatcher
     for f in repo.functions:
         for n in walk_no_nested(f.node):
@@ -440,6 +464,23 @@ def mut_state_inventory(repo: Repo) -> List[Mutant]:
     ov = mutate_module(repo, "program/transformer/conditions_normalizer.py", classflag)
     if ov:
         out.append(Mutant("class-level-flag-write", ov, "fire", "classattr::ConditionsNormalizer.needs_info_update"))
+
+    def shared_evidence(tree):
+        cls = find_def(tree, "ExactInferenceQuery")
+        if cls is None:
+            return False
+        for st in cls.body:
+            if isinstance(st, ast.AnnAssign) and isinstance(st.target, ast.Name) and st.target.id == "evidence":
+                st.value = ast.List(elts=[], ctx=ast.Load())
+        init = find_def(tree, "ExactInferenceQuery.__init__")
+        for i, st in enumerate(init.body):
+            if isinstance(st, ast.Assign) and src(st.targets[0]) == "self.evidence":
+                del init.body[i]
+                return True
+        return False
+    ov = mutate_module(repo, "bayesnet/query/exact_inference_query.py", shared_evidence)
+    if ov:
+        out.append(Mutant("class-level-evidence-list", ov, "fire", "classmutable::ExactInferenceQuery.evidence"))
 
     def mutable_default(tree):
         fn = find_def(tree, "get_moment")
